@@ -41,6 +41,12 @@ TRICKY_NAMES = ['strain_a', 'sin_x', 'newvar_b', 'main_z']
 
 def gen_cfg(rng, tricky=0.25, timelines=0.5, forms=None):
     cfg = impl.gen_sim_config(rng, small=True, allow_global_readers=False)
+    # ErdosRenyiNet + deaths is not reproducible run to run (edges built from array positions, C14 finding): twins and
+    # probed/unprobed runs would differ for reasons that are not C15's
+    nets = [n for n in cfg['networks'] if n['type'] != 'erdosrenyi']
+    if not any(n['type'] != 'maternal' for n in nets):
+        nets.insert(0, dict(type='random', n_contacts=4, dur=0))
+    cfg['networks'] = nets
     # own timelines for the diseases
     for d in cfg['diseases']:
         if rng.random() < timelines:
@@ -528,7 +534,7 @@ def correspond(ctx):
     if bool(r0.scale) != facts['result_defaults']['scale']:
         ctx.broke('extract', 'ResultsTable', 'default scale flag of ss.Result differs from the extracted default')
     correspond_vtp(ctx)
-    n = ctx.budget(14, 90)
+    n = ctx.budget(20, 110)
     for i in range(n):
         cfg = gen_cfg(ctx.rng)
         try:
@@ -693,8 +699,11 @@ def oracle_sim(cfg, twin=True, check_exports=True):
             nm = meta[key]['name']
             if 'cum_' in key and abs(float(got) - a.mean()) <= 1e-9 * max(1.0, abs(a.mean())):
                 shadow = 'n_' if 'n_' in key else ('new_' if 'new_' in key else 'none')
-                fail(sig(oracle='summary', kind='cum-by-mean', shadowed_by=shadow if shadow in key.replace(nm, '') else 'result-name'),
-                     f'summary[{key}]={got!r} is the mean of the cumulative series, not its last value {want!r}: the key contains {shadow!r}, which comes first in the how-table and is matched as a substring')
+                by = shadow if (shadow != 'none' and shadow in key) else 'nothing'
+                why = (f'the key contains {shadow!r}, which comes first in the how-table and is matched as a substring' if by != 'nothing'
+                       else 'no earlier entry of the how-table matches the key: the rule for cum_ itself gives the mean')
+                fail(sig(oracle='summary', kind='cum-by-mean', shadowed_by=by),
+                     f'summary[{key}]={got!r} is the mean of the cumulative series, not its last value {want!r}: {why}')
             else:
                 fail(sig(oracle='summary', kind='value', result=nm), f'summary[{key}]={got!r} but the series gives {want!r}')
     if check_exports:
@@ -794,7 +803,7 @@ def search(ctx):
     for b in ctx.broken:   # shrunk / diverging inputs first
         if isinstance(b.get('data'), dict) and 'n_agents' in b['data']:
             cfgs.append(b['data'])
-    n = ctx.budget(8, 60)
+    n = ctx.budget(10, 60)
     for i in range(n):
         cfgs.append(gen_cfg(ctx.rng, forms=['pop_scale_int', 'pop_scale_float', 'total_pop_int', 'total_pop_frac', 'none']))
     for i, cfg in enumerate(cfgs):
